@@ -20,6 +20,10 @@ type C12Case struct {
 	Inputs2 []float64 `json:"inputs2,omitempty"`
 	// Flush2: the instances are flushed between the two vectors
 	Flush2 bool `json:"flush_between,omitempty"`
+	// Mix > 0: on the fast solvers the second vector is evaluated by another way of activation than the first (forward
+	// stepping -> recursive -> relaxation -> forward stepping, rotated by Mix), forward stepping then with exactly as many
+	// steps as the longest path: what one way of activation leaves behind is not an input of the next
+	Mix int `json:"second_vector_other_way,omitempty"`
 	// PriorCap > 0: every network instance is first asked for its depth under this cap (below the real depth, so the
 	// query gives up with the depth-exceeded error) - a read-only query that must not influence later evaluations
 	PriorCap int `json:"prior_capped_depth_query,omitempty"`
@@ -51,6 +55,7 @@ func GenC12() *rapid.Generator[C12Case] {
 				c.Inputs2 = append(c.Inputs2, v)
 			}
 			c.Flush2 = rapid.Bool().Draw(t, "flush between")
+			c.Mix = rapid.SampledFrom([]int{0, 0, 1, 2}).Draw(t, "second vector by another way of activation")
 		}
 		c.Tuned = rapid.IntRange(0, 5).Draw(t, "tuned") == 0
 		c.ExplicitBias = rapid.IntRange(0, 3).Draw(t, "explicit bias first") == 0
@@ -246,7 +251,25 @@ func CheckC12(c C12Case, rec *Rec) error {
 			return e
 		}},
 	}
-	for _, r := range runs {
+	exact := depth
+	if exact == 0 {
+		exact = 1
+	}
+	second := func(k int) run { // the way of activation used for the second vector
+		if c.Mix == 0 {
+			return runs[k]
+		}
+		r2 := runs[(k+c.Mix)%len(runs)]
+		if (k+c.Mix)%len(runs) == 0 {
+			r2 = run{fmt.Sprintf("fast ForwardSteps(%d)", exact), func(s network.Solver) error { _, e := s.ForwardSteps(exact); return e }}
+		}
+		r2.name = r2.name + " after " + runs[k].name
+		return r2
+	}
+	if c.Mix > 0 && ref2 != nil {
+		rec.Class("second vector evaluated by another way of activation")
+	}
+	for k, r := range runs {
 		n2, err := fresh()
 		if err != nil {
 			return err
@@ -274,10 +297,11 @@ func CheckC12(c C12Case, rec *Rec) error {
 			if err = solver.LoadSensors(c.Inputs2); err != nil {
 				return fmt.Errorf("fast LoadSensors (second vector): %v", err)
 			}
-			if err = r.f(solver); err != nil {
-				return fmt.Errorf("%s (second vector): %v", r.name, err)
+			r2 := second(k)
+			if err = r2.f(solver); err != nil {
+				return fmt.Errorf("%s (second vector): %v", r2.name, err)
 			}
-			if err = compareOutputs("second input vector on the same solver, "+r.name, solver.ReadOutputs(), *ref2); err != nil {
+			if err = compareOutputs("second input vector on the same solver, "+r2.name, solver.ReadOutputs(), *ref2); err != nil {
 				return err
 			}
 			if err = compareOutputs("outputs of the first evaluation, read again after the second one, "+r.name, heldFast, ref); err != nil {
@@ -287,7 +311,7 @@ func CheckC12(c C12Case, rec *Rec) error {
 	}
 	// 3. a fast solver assembled with the public constructor (every link an ordinary connection, also those of the bias
 	// neurons; the form a model file holds): the same three ways of activation
-	for _, r := range runs {
+	for k, r := range runs {
 		solver := c.Net.BuildSolverDirect()
 		if err = solver.LoadSensors(c.Inputs); err != nil {
 			return fmt.Errorf("fast LoadSensors (solver from the constructor): %v", err)
@@ -307,10 +331,11 @@ func CheckC12(c C12Case, rec *Rec) error {
 			if err = solver.LoadSensors(c.Inputs2); err != nil {
 				return fmt.Errorf("fast LoadSensors (solver from the constructor, second vector): %v", err)
 			}
-			if err = r.f(solver); err != nil {
-				return fmt.Errorf("%s (solver from the constructor, second vector): %v", r.name, err)
+			r2 := second(k)
+			if err = r2.f(solver); err != nil {
+				return fmt.Errorf("%s (solver from the constructor, second vector): %v", r2.name, err)
 			}
-			if err = compareOutputs("second input vector, "+r.name+" (solver assembled with the public constructor)", solver.ReadOutputs(), *ref2); err != nil {
+			if err = compareOutputs("second input vector, "+r2.name+" (solver assembled with the public constructor)", solver.ReadOutputs(), *ref2); err != nil {
 				return err
 			}
 		}
